@@ -9,8 +9,19 @@ import numpy as np
 from .. import common as C
 
 PROP = "C15"
-GEN_REGIONS = ["Attrs"]
+GEN_REGIONS = ["Attrs", "Miso"]
 THEOREMS = {
+    # speckit/systems.py as TRANSLATED on every run (Gen/Miso.lean): the residual statements of both solvers equal the hand model
+    # Model.misoResidual on the arrays the translated assembly builds; the assembly (which attribute of which ltf([a, b]) call is filed where,
+    # conjugations, the np.any diagonal rule, the q == 1 case, the memoisation keys) yields the Gram quantities T, S, S00 of
+    # Lemmas/MisoResidual in that index / conjugation convention; what is handed to the external solvers; transfer of the property theorems
+    "SpecKitV.Props.MisoGen": [
+        "gen_numeric_eq_model", "gen_analytic_eq_model", "MisoGen.numeric_assembly", "MisoGen.analytic_T", "MisoGen.analytic_S",
+        "MisoGen.analytic_S00", "MisoGen.analytic_H", "MisoGen.numeric_H_solves", "MisoGen.analytic_H_solves",
+        "gen_numeric_eq_resid", "gen_numeric_is_norm", "gen_numeric_normal_eq", "gen_numeric_le_output", "gen_numeric_minimises",
+        "gen_numeric_exact_combination_zero", "gen_numeric_remix_invariant",
+        "gen_analytic_eq_resid", "gen_analytic_normal_eq", "gen_analytic_le_output", "gen_analytic_exact_combination_zero",
+        "gen_analytic_remix_invariant", "gen_solvers_agree", "gen_siso_eq_GyyRx", "gen_siso_eq_miso_q1", "MisoGen.abs_csqrt"],
     "SpecKitV.Lemmas.MisoResidual": [
         "Miso.residual_is_norm", "Miso.residual_real_nonneg", "Miso.normal_eq_minimises", "Miso.residual_le_output",
         "Miso.solvers_agree", "Miso.exact_combination_zero", "Miso.remix_invariant", "Miso.siso_case", "model_misoResidual_toC"],
@@ -19,6 +30,20 @@ THEOREMS = {
 CONTRACTS = [
     "sympy.solve / np.linalg.solve / np.linalg.pinv return a solution H of the normal equations sum_j T_ij H_j = S_i "
     "(the theorems hold for ANY such H, no invertibility assumed)",
+    "Np.Miso.Ltf (Np/Miso.lean): ltf(x, fs, **kwargs) = `auto x`, ltf([x, y], fs, **kwargs) = `cross x y` (channel order is an argument) return, per "
+    "bin, the base estimates Gen.BinData from which the TRANSLATED SpectrumResult.__getattr__ (Gen/Attrs) computes Gxx/Gxy/Gyy/GyySx, and nf; "
+    "MisoGen.GramLtf (Props/MisoGen.lean) states C01/C05 for them: XY of cross a b = mean_s Z_a conj Z_b, XX/YY = mean |Z_a|^2 / |Z_b|^2 over the "
+    "same K segments, common S2 and fs (same plan in every call: the translator checks that every call passes exactly fs, **kwargs)",
+    "Np.Miso.LinAlg: np.linalg.cond / pinv / solve as parameters (none = LinAlgError raised); MisoGen.LinAlgSound: on a solvable system what "
+    "np.linalg.solve(T, S) returns and np.linalg.pinv(T) @ S solve T H = S; solvability of the normal equations of a Gram system is an explicit "
+    "hypothesis (hcons) of the transferred theorems, not proved here",
+    "MisoGen.AnalyticSolved: the values sp.solve(eqns, Hvec) + sp.lambdify(...)(*[result[str(s)]...]) store under the unknowns' names satisfy the "
+    "TRANSLATED symbolic equations (Gen.MISO_analytic_optimal_spectral_analysis.eqns) at the arrays stored under the symbols' names",
+    "Np.Miso.Key / Dict / Cache: a Python str is its list of characters, f\"{i + 1}\" its decimal digits; dict stores and lookups by string equality; "
+    "Cache.memo = the helper get_ltf_result (if key not in result: result[key] = ltf(...)); theorems for q <= 9 inputs (one digit per index)",
+    "Np.Miso.A3.setRow / A2.setRow / A2.setCol = NumPy slice assignment T[i, j, :] = v / S[i, :] = v / H[:, k] = v; anyNonzero = np.any; "
+    "sumAxis0 = np.sum(axis=0) (rows added in order); pySum = builtin sum; matVec = M @ v; forRangeFrom = range(a, b); "
+    "csqrt = np.sqrt of a complex number (principal root)",
     "every ltf(...) call inside one systems function uses the same kwargs on equal-length records, hence the same plan (same segmentation): "
     "T_ij, S_i, S00 are c*means over the same segments of products of per-segment DFTs (C01/C05), c = 2/(fs*S2) >= 0",
 ]
@@ -37,7 +62,11 @@ RULE = ("cases = (record family: white/coloured/offset+trend/correlated inputs, 
         "long double, big-endian, Python lists/tuples/array.array, strided/reversed/column views, read-only, masked arrays, pandas Series with "
         "non-default / permuted / nullable index+dtype), mixed between channels, every carrier at least once per run as the input against an output "
         "of the opposite kind, checked against the claims for the record's VALUES and against the same values as float64 arrays; distinct by (sub-check, solver, q, family, order, scheduler, coupling kind); non-trivial = at least one bin with navg > q, "
-        "resolved output spectrum and cond(T) <= 1e8 was actually compared")
+        "resolved output spectrum and cond(T) <= 1e8 was actually compared; generated-code stream (gmiso): q = 1..4 problems from a side stream of "
+        "VERIF_SEED, the three systems functions AS TRANSLATED (Gen/Miso.lean) executed by the driver on the base estimates of every ltf call the real "
+        "function made (recorded with the channels it was called with) vs the real function's own Tmat/Svec/S00/Hvec or dict `result` (assembly: "
+        "64 ulp of the bin's scale) and its returned ASD (the tolerance above), once with stand-in solvers (Gaussian elimination on what the generated "
+        "code hands over / on the translated SymPy equations) and once with the real solver's output")
 
 U = 2.0 ** -53
 ETA = 1e-9          # power-like comparisons: |a - b| <= ETA * B, B = S00 + 2 sum|H_i||S_i| + sum|H_j||H_i||T_ji| (magnitude of the formula's terms)
@@ -260,6 +289,268 @@ def model_residual(drv, q, S00, S, T, H) -> complex:
     return complex(v[0], v[1])
 
 
+
+# ------------------------------------------------------------------------------------------------ generated code (Gen/Miso.lean) vs the real functions
+SYS_FN = {"siso": "SISO_optimal_spectral_analysis", "numeric": "MISO_numeric_optimal_spectral_analysis",
+          "analytic": "MISO_analytic_optimal_spectral_analysis"}
+
+
+class LtfRecorder:
+    """records every `ltf(...)` call one systems function makes (data argument + returned SpectrumResult) and keeps the function's frame,
+    whose locals (Tmat, Svec, Hvec, S00 / the dict `result`) are read after it returned; the library is not modified"""
+
+    def __init__(self):
+        self.calls: List[Any] = []
+        self.frame = None
+
+    def __enter__(self):
+        import sys
+        from speckit import systems
+        self.systems = systems
+        self.real = systems.ltf
+
+        def wrap(data, *a, **k):
+            fr = sys._getframe(1)
+            for _ in range(4):
+                if fr is None:
+                    break
+                if fr.f_code.co_name in SYS_FN.values():
+                    self.frame = fr
+                    break
+                fr = fr.f_back
+            r = self.real(data, *a, **k)
+            self.calls.append((data, r))
+            return r
+        systems.ltf = wrap
+        return self
+
+    def __exit__(self, *a):
+        self.systems.ltf = self.real
+
+    def chan(self, arr, loc) -> Optional[str]:
+        for i, v in enumerate(loc.get("input_arrays", []) or []):
+            if v is arr:
+                return f"i{i}"
+        if loc.get("input_arr") is arr:
+            return "i0"
+        if loc.get("output_arr") is arr:
+            return "o"
+        return None
+
+    def encode(self) -> str:
+        """the table of recorded calls for the driver: channel(s), nf, then per bin XX YY Re(XY) Im(XY) S12 S2 M2 navg fs"""
+        loc = self.frame.f_locals
+        parts = [str(len(self.calls))]
+        for data, r in self.calls:
+            if isinstance(data, (list, tuple)) and len(data) == 2:
+                a, b = self.chan(data[0], loc), self.chan(data[1], loc)
+            else:
+                a, b = self.chan(data, loc), "-"
+            if a is None or b is None:
+                raise ValueError("an ltf call of the real function used an array that is not one of its recorded channels")
+            nf = int(r.nf)
+            YY = r.YY if r.YY is not None else r.XX
+            parts += [a, b, str(nf)]
+            for k in range(nf):
+                z = complex(r.XY[k])
+                parts += [C.f2h(r.XX[k]), C.f2h(YY[k]), C.f2h(z.real), C.f2h(z.imag), C.f2h(r.S12[k]), C.f2h(r.S2[k]), C.f2h(r.M2[k]),
+                          C.f2h(float(r.navg[k])), C.f2h(float(r.fs))]
+        return " ".join(parts)
+
+
+class _Take:
+    def __init__(self, vals):
+        self.o = np.asarray(vals, dtype=float)
+        self.pos = 0
+
+    def real(self, n):
+        v = self.o[self.pos:self.pos + n]
+        self.pos += n
+        return v
+
+    def cplx(self, n):
+        v = self.o[self.pos:self.pos + 2 * n].reshape(-1, 2)
+        self.pos += 2 * n
+        return v[:, 0] + 1j * v[:, 1]
+
+
+def _asd_tol(ing, q, k, m):
+    pb = 64.0 * (q + 1) ** 2 * U * ing.B[k]
+    return 1e-8 * np.sqrt(ing.S00[k]) + min(np.sqrt(pb), pb / max(m, 1e-300))
+
+
+def gen_one(P: C.Part, drv, c, ing, sv: str) -> None:
+    """one systems function: the generated code (driver, Float) on the ltf results the real function obtained, vs the real function's
+    internal arrays and its returned ASD"""
+    q = c["q"]
+    base = {"op": "gmiso", "solver": sv, "case": case_desc(c)}
+    with LtfRecorder() as rec:
+        try:
+            f, asd = call(sv, c["xs"], c["y"], c["fs"], c["kw"])
+        except Exception as ex:
+            P.disagreements.append(dict(base, error=repr(ex)))
+            return
+    if rec.frame is None or not rec.calls:
+        P.disagreements.append(dict(base, what="the real function made no ltf call that could be recorded"))
+        return
+    loc = rec.frame.f_locals
+    nf = len(f)
+    asd = np.asarray(asd, dtype=float)
+    try:
+        table = rec.encode()
+    except ValueError as ex:
+        P.disagreements.append(dict(base, what=str(ex)))
+        return
+    P.cases += 1
+    P.hit(f"gen_{sv}_q{q}")
+    ok_bin = np.array([(ing.navg[k] > q and ing.resolved[k] and ing.mask(sv)[k]) for k in range(nf)]) if nf == ing.nf else np.zeros(nf, dtype=bool)
+
+    def cmp_arr(name, got, want, scale):
+        """assembly rule: same formula on the same numbers -> agreement to a few ulps of the bin's scale"""
+        got, want = np.asarray(got), np.asarray(want)
+        if got.shape != want.shape:
+            P.disagreements.append(dict(base, what=f"{name}: shape {got.shape} vs {want.shape}"))
+            return False
+        d = np.abs(got - want)
+        tol = 64.0 * U * scale
+        bad = ~(d <= tol)
+        if bad.any():
+            idx = tuple(int(t) for t in np.argwhere(bad)[0])
+            P.disagreements.append(dict(base, what=f"assembly rule {name}{list(idx)}: generated {complex(got[idx])!r} vs real {complex(want[idx])!r}",
+                                        tol=float(np.broadcast_to(tol, d.shape)[idx])))
+            return False
+        P.hit("gen_assembly_arrays_equal")
+        return True
+
+    def cmp_asd(tag, ret):
+        n_cmp = 0
+        for k in range(nf):
+            if not ok_bin[k]:
+                continue
+            m = float(ret[k])
+            tol = _asd_tol(ing, q, k, m)
+            n_cmp += 1
+            if not (abs(m - float(asd[k])) <= tol):
+                P.disagreements.append(dict(base, what=f"{tag}: bin {k} generated asd {m!r} vs real {float(asd[k])!r}", tol=float(tol),
+                                            cond=float(ing.cond[k]), navg=int(ing.navg[k])))
+                return
+        P.hit(f"gen_bins_compared_{tag}", n_cmp)
+        if n_cmp:
+            P.nontrivial.add(("gen", tag, sv, q, c["family"], c["coupling"], c["kw"].get("order", 0), c["kw"].get("scheduler", "vectorized_ltf")))
+
+    if sv == "siso":
+        ret = np.array(drv.floats(f"gmiso siso {nf} {table}"))
+        cmp_asd("siso", ret)
+        return
+    if sv == "numeric":
+        need = ("Tmat", "Svec", "Hvec", "S00")
+        if any(n not in loc for n in need):
+            P.disagreements.append(dict(base, what=f"the real function has no local arrays {need}"))
+            return
+        Tm, Sv, Hv, S0 = (np.asarray(loc[n]) for n in need)
+        for mode in ("standin", "realH"):
+            extra = "" if mode == "standin" else " H " + cx(Hv).split(" ", 1)[1]
+            t = _Take(drv.floats(f"gmiso numeric {q} {nf} {table}{extra}"))
+            nf_g = t.real(1)[0]
+            S00g = t.real(nf)
+            Tg = t.cplx(q * q * nf).reshape(q, q, nf)
+            Sg = t.cplx(q * nf).reshape(q, nf)
+            Hg = t.cplx(q * nf).reshape(q, nf)
+            ret = t.real(nf)
+            if mode == "standin":
+                if int(nf_g) != nf:
+                    P.disagreements.append(dict(base, what=f"nf: generated {nf_g} vs real {nf}"))
+                    return
+                sc = np.maximum(np.max(np.abs(Tm), axis=(0, 1)), np.abs(S0))
+                if not (cmp_arr("S00", S00g, S0, sc) and cmp_arr("Tmat", Tg, Tm, sc[None, None, :])
+                        and cmp_arr("Svec", Sg, Sv, np.maximum(np.max(np.abs(Sv), axis=0), sc)[None, :])):
+                    return
+                # the stand-in solver (Gaussian elimination on what the generated code hands over) vs np.linalg.solve: both backward stable
+                for k in range(nf):
+                    if ok_bin[k]:
+                        hm = float(np.max(np.abs(Hv[:, k])))
+                        tolh = 256.0 * q * q * U * ing.cond[k] * hm
+                        if not (np.max(np.abs(Hg[:, k] - Hv[:, k])) <= tolh):
+                            P.disagreements.append(dict(base, what=f"solve: bin {k} generated H {Hg[:, k]!r} vs real {Hv[:, k]!r}", tol=float(tolh),
+                                                        cond=float(ing.cond[k])))
+                            return
+                P.hit("gen_solver_input_agrees")
+            cmp_asd(f"numeric_{mode}", ret)
+        return
+    # analytic
+    res = loc.get("result")
+    if not isinstance(res, dict):
+        P.disagreements.append(dict(base, what="the real function has no local dict `result`"))
+        return
+    keys = [k for k, v in res.items() if isinstance(v, np.ndarray) and k != "f" and " " not in k]
+    hkeys = [f"H{i + 1}" for i in range(q)]
+    if any(h not in res for h in hkeys):
+        P.disagreements.append(dict(base, what=f"the real `result` has no entries {hkeys}"))
+        return
+    Hreal = np.array([np.asarray(res[h], dtype=complex) * np.ones(nf) for h in hkeys])
+    spect = [k for k in keys if k[0] in "TS"]
+    sc = np.max(np.abs(np.array([np.asarray(res[k], dtype=complex) * np.ones(nf) for k in spect])), axis=0) if spect else np.zeros(nf)
+    for mode in ("standin", "realH"):
+        extra = "" if mode == "standin" else " H " + cx(Hreal).split(" ", 1)[1]
+        t = _Take(drv.floats(f"gmiso analytic {q} {nf} {table} {len(keys)} {' '.join(keys)}{extra}"))
+        vals = {k: t.cplx(nf) for k in keys}
+        eq = t.cplx(q * nf).reshape(q, nf)
+        ret = t.real(nf)
+        if mode == "standin":
+            for k in spect:
+                if not cmp_arr(f"result[{k!r}]", vals[k], np.asarray(res[k], dtype=complex) * np.ones(nf), sc):
+                    return
+        else:
+            # with the REAL solution stored: every entry of the generated dict equals the real one, and the real solution satisfies the
+            # TRANSLATED equations (the SymPy contract, exercised) up to the rounding of the closed form (rho-scaled, good bins only)
+            for k in keys:
+                if k == "optimal_asd":
+                    continue
+                if not cmp_arr(f"result[{k!r}]", vals[k], np.asarray(res[k], dtype=complex) * np.ones(nf), np.maximum(sc, np.max(np.abs(Hreal), axis=0))):
+                    return
+            for k in range(nf):
+                if ok_bin[k]:
+                    mag = float(np.max(np.abs(ing.S[:, k])) + np.max(np.abs(ing.T[:, :, k])) * np.max(np.abs(Hreal[:, k])))
+                    tole = 256.0 * (q + 1) ** 2 * U * max(ing.rho[k], ing.cond[k]) * mag
+                    if not (np.max(np.abs(eq[:, k])) <= tole):
+                        P.disagreements.append(dict(base, what=f"sympy contract: bin {k}: the stored solution leaves the translated equations at {eq[:, k]!r}",
+                                                    tol=float(tole), rho=float(ing.rho[k])))
+                        return
+            P.hit("gen_sympy_contract_holds")
+        cmp_asd(f"analytic_{mode}", ret)
+
+
+def gen_differential(ctx, P: C.Part) -> None:
+    """Gen/Miso.lean (the three systems functions as translated from the current source) executed by the driver, against the real functions.
+    Random choices come from a side stream derived from VERIF_SEED, so that the existing case streams are what they were."""
+    import time as _t
+    g = np.random.default_rng([int(ctx.seed), 0x6D150])
+    t0 = _t.time()
+    cap = 15.0 if not ctx.thorough else 120.0
+    plan = [1, 2, 3, 2, 1, 3, 2, 4] * (1 if not ctx.thorough else 4)
+    for i, q in enumerate(plan):
+        if _t.time() - t0 > cap or ctx.time_left() < 60:
+            P.notes.append(f"generated-code run: time cap reached after {i} cases")
+            break
+        c = build_case(int(g.integers(0, 2 ** 62)), q, False)
+        c["kw"]["Jdes"] = min(int(c["kw"]["Jdes"]), 14)
+        try:
+            ing = Ingredients(c["xs"], c["y"], c["fs"], c["kw"])
+        except Exception:
+            P.hit("skipped_compute_spectrum_error")
+            continue
+        for sv in ["numeric", "analytic"] + (["siso"] if q == 1 else []):
+            if sv == "analytic" and q == 4 and not ctx.thorough:
+                continue          # SymPy's 4x4 solve takes seconds
+            try:
+                gen_one(P, ctx.driver, c, ing, sv)
+            except RuntimeError as ex:
+                P.disagreements.append({"op": "gmiso", "solver": sv, "error": str(ex)[:300], "case": case_desc(c)})
+        if i < 2:
+            P.sample({"op": "gmiso", **case_desc(c), "bins": int(ing.nf), "good_bins": int(ing.good.sum())})
+    P.notes.append(f"generated-code run (Gen/Miso vs real systems.py): {_t.time() - t0:.1f}s")
+
+
 def correspondence(ctx) -> C.Part:
     """Model.misoResidual (driver, Float) evaluated on the spectra the real library computes (same kwargs) and on a numpy solution of the
     normal equations, vs the ASD returned by the real MISO/SISO functions: | |sqrt(model)| - asd | <= 1e-8*sqrt(S00) per bin."""
@@ -322,6 +613,7 @@ def correspondence(ctx) -> C.Part:
             P.nontrivial.add(("corr", q, c["family"], c["coupling"], c["kw"].get("order", 0), c["kw"].get("scheduler", "vectorized_ltf")))
         P.sample({"op": "miso", **case_desc(c), "bins": int(ing.nf), "good_bins": int(ing.good.sum())})
     P.notes.append(f"worst |model-impl|/tol = {worst:.3g}")
+    gen_differential(ctx, P)
     return P
 
 
